@@ -31,6 +31,10 @@ def menu(d):
     M["ok_n"] = ("loads", H + "int n = 5\nG(n) | 0\n")
     M["ok_n2"] = ("loads", H + "float n = 0.5\nstr x = \"s\"\nG(n, x) | 1\n")
     M["ok_x_arr"] = ("loads", H + "float x = 2.5\nfloat array A =\n    1, 2\nG(x, A) | 0\n")
+    M["ok_arr_idx"] = ("loads", H + "float array A =\n    1.5, 2.5, 3.5\nint n = 2\nG(A[n], A[0]) | 0\n")
+    M["ok_arr_idx2"] = ("loads", H + "int array A =\n    7, 8\n    9, 10\nint x = A[3]\nG(A[1]) | [A[0], x]\nfor int i in 0:2\n    H(A[i]) | i\n")
+    M["bad_after_idx"] = ("loads", H + "float array A =\n    5, 6\nint n = 1\nG(A[n]) | 0\nG(u) | 0\n")
+    M["bad_after_idx_loop"] = ("loads", H + "int array A =\n    4, 3, 2, 1\nfor int i in 0:4\n    G(A[i]) | A[i]\nG | 0.5\n")
     M["ok_tmpl"] = ("loads", H + "G({n}, {q}) | 0\n")
     M["ok_tmpl_var"] = ("loads", H + "float x = {n}\nfloat array A[1, 2] =\n    {P}\nG(x, A) | 0\n")
     M["ok_loop"] = ("loads", H + "for int i in 0:2\n    G(i) | i\n")
